@@ -261,6 +261,12 @@ pub fn run(args: &Args) {
                     Step::Reopen => {
                         drop(kvs);
                         kvs = KeyValueStore::open(sc.cfg.options(&base_s)).map_err(|e| e.to_string())?;
+                        // stop at a tree with the known recovery defect: later compactions assert on it
+                        let mut h = crate::e1::History::attach(&base, sc.cfg.clone(), sc.keys.clone());
+                        h.levels_override = Some(kvs.verif_tree().verif_levels());
+                        if h.check_structure(true).is_err() {
+                            break;
+                        }
                     }
                 }
             }
@@ -478,7 +484,21 @@ pub fn run(args: &Args) {
                     let mut i = rng.usize(entries.len());
                     if *how == "drop-entry" && *books == "consistent-books" {
                         // drop something every policy must keep: the newest version of a key, when it is a value
-                        let cands: Vec<usize> = (0..entries.len()).filter(|j| entries[*j].value.is_some() && (*j == 0 || entries[*j - 1].key != entries[*j].key)).collect();
+                        // (newest among all inputs of the transaction: a key's versions may straddle outputs)
+                        let mut newest: std::collections::HashMap<Vec<u8>, u64> = std::collections::HashMap::new();
+                        for inp in inputs {
+                            let p1 = lsmtk::TRASH_ROOT(&work).join(format!("{inp}.sst"));
+                            let p2 = lsmtk::SST_ROOT(&work).join(format!("{inp}.sst"));
+                            if let Ok(d) = dump_sst(if p1.is_file() { &p1 } else { &p2 }) {
+                                for e in &d.entries {
+                                    let x = newest.entry(e.key.clone()).or_insert(0);
+                                    *x = (*x).max(e.ts);
+                                }
+                            }
+                        }
+                        let cands: Vec<usize> = (0..entries.len())
+                            .filter(|j| entries[*j].value.is_some() && (*j == 0 || entries[*j - 1].key != entries[*j].key) && newest.get(&entries[*j].key) == Some(&entries[*j].ts))
+                            .collect();
                         if cands.is_empty() {
                             continue;
                         }
